@@ -109,6 +109,7 @@ func c35Live(t *testing.T, name string, restricted bool) {
 		batchMax = kit.EnvInt("C35_BATCH_RESTRICTED", 8)
 	}
 	only := os.Getenv("C35_ONLY")
+	debug := os.Getenv("C35_DEBUG") != ""
 	dead := ""
 	batches := 0
 
@@ -141,8 +142,21 @@ func c35Live(t *testing.T, name string, restricted bool) {
 			if !r.Connected && r.Err != "" && strings.HasPrefix(r.Err, "dial:") {
 				classes = append(classes, "dial-failed:"+in.L)
 			}
-			classes = append(classes, r.Tags...)
+			seen := map[string]bool{}
+			for _, tg := range r.Tags {
+				if !seen[tg] {
+					seen[tg] = true
+					classes = append(classes, tg)
+				}
+			}
 			rec.Case(r.Deep, in.Note, classes...)
+			if debug {
+				note := in.Note
+				if len(note) > 300 {
+					note = note[:300] + "…"
+				}
+				fmt.Printf("C35DBG [%s] deep=%v reply=%d statuses=%v tags=%v err=%q :: %s\n", in.Cls, r.Deep, r.Reply, r.Statuses, r.Tags, r.Err, note)
+			}
 		}
 
 		switch {
